@@ -282,7 +282,7 @@ def gen_scenario(rng):
 
 def cases(seed, tier):
     rng = random.Random('c17-%s' % seed)
-    n = 80 if tier == 'quick' else 160
+    n = 80 if tier == 'quick' else 320
     out = []
     for i in range(n):
         prng = random.Random(rng.getrandbits(64))
